@@ -86,6 +86,10 @@ def classify(case, asg, tag, a, b):
             pb = [(x[0], x[1]) for x in b]
             if pa == pb:
                 tags.add("marker-only")
+                info = ktree.sym_info(case["prog"])
+                diff = [x for x, y in zip(a, b) if x != y]
+                if diff and all(x[1] == "" and info[x[0]]["type"] in ("int", "hex", "float") for x in diff):
+                    tags.add("empty-numeric-line")
         except Exception:
             pass
     return tags
